@@ -117,6 +117,28 @@ func vfC20Run(t *testing.T, c *vfc20.Case) *vfc20.Run {
 		}
 		nSeed := tg.LogLen()
 		ro := vfC20Output(c, tg, 1)
+		if c.FaultAt > 0 {
+			at := nSeed + c.FaultAt - 1
+			switch c.FaultKind {
+			case "err":
+				tg.FailAt = map[int]string{at: "ERR injected fault (not BUSYKEY, not a payload error)"}
+				tg.FailExecToo = true
+			case "drop":
+				tg.DropAt = map[int]bool{at: true}
+			case "lose":
+				tg.LoseReplyAt = map[int]bool{at: true}
+			}
+		}
+		if c.Slow > 0 {
+			slow := time.Duration(c.Slow) * time.Millisecond
+			tick := c.Tick
+			tg.Hook = func(idx int, e vfdoubles.LogEntry) {
+				time.Sleep(slow)
+				if tick {
+					tg.SetNow(time.Now().UnixMilli()) // the target's clock runs: keys expire during the run
+				}
+			}
+		}
 		if c.Window != "" {
 			fired := false
 			wk := string(vfutil.UnHex(c.Window))
@@ -321,6 +343,12 @@ func TestVerifC20Syncer(t *testing.T) {
 					for rep := 0; rep < 50; rep++ {
 						send(&c, "replay")
 					}
+				} else if json.Unmarshal([]byte(rp.Replay.Case), &c) == nil && c.FaultAt > 0 {
+					cc := c
+					cc.FaultAt, cc.FaultKind = 0, ""
+					vfc20.CheckFault(s, &c, vfC20Run(t, &cc), vfC20Run(t, &c))
+				} else if json.Unmarshal([]byte(rp.Replay.Case), &c) == nil && c.Tick {
+					vfc20.CheckExpiryKept(s, &c, vfC20Run(t, &c))
 				} else if json.Unmarshal([]byte(rp.Replay.Case), &c) == nil && c.Mode != "plain" && c.Mode != "" {
 					run(&c, "replay")
 				}
@@ -412,6 +440,47 @@ func TestVerifC20Syncer(t *testing.T) {
 	for _, mode := range []string{"send", "sendbisync"} {
 		for _, c := range vfc20.BackPressure(mode) {
 			send(c, "send-backpressure")
+		}
+	}
+	// DIMENSION AUDIT: the ladder table (no fault: compared with the model), then EVERY request of every row meeting a fault
+	for _, mode := range []string{"wplain", "bisync"} {
+		for li, c := range vfc20.Ladder(mode) {
+			clean := vfC20Run(t, c)
+			if clean.LoadErr != nil {
+				s.Violate("generator-rdb-rejected", clean.LoadErr.Error(), c.Replay())
+				continue
+			}
+			vfc20.Emit(s, idx, c, clean)
+			idx++
+			vfc20.Monitors(s, c, clean)
+			vfc20.Stats(s, c, clean, "ladder")
+			kinds := []string{"err", "drop", "lose"}
+			for k := 1; k <= len(clean.Log); k++ {
+				// quick tier: every request with one kind (rotating), thorough: all three
+				for ki, kind := range kinds {
+					if vfutil.Scale(1, 3) == 1 && (li+k)%3 != ki {
+						continue
+					}
+					fc := *c
+					fc.FaultAt, fc.FaultKind = k, kind
+					r := vfC20Run(t, &fc)
+					if r.LoadErr != nil {
+						continue
+					}
+					vfc20.CheckFault(s, &fc, clean, r)
+					s.Count("case_ladder-fault")
+					s.Count("fault_on_" + clean.Log[k-1].Cmd())
+				}
+			}
+		}
+		for _, c := range vfc20.ExpiryBetweenChunks(mode) {
+			r := vfC20Run(t, c)
+			if r.LoadErr != nil {
+				s.Violate("generator-rdb-rejected", r.LoadErr.Error(), c.Replay())
+				continue
+			}
+			vfc20.CheckExpiryKept(s, c, r)
+			vfc20.Stats(s, c, r, "expiry-between-chunks")
 		}
 	}
 	// a worker FAILS while the distributor is blocked on full pipes: SendRdb returns, with the worker's error
